@@ -26,6 +26,8 @@ def _passes_unless_member(pd, adds):
 
 
 def check(ck):
+    from .memo import check_new_memo_tables
+    ck.run(check_new_memo_tables, ck, "C10.M1", ('runner_local', 'call_stack', 'resource_function', 'serialization', 'metadata'))
     R1, R2, R3, R4, R5 = ("C10.R%d" % i for i in range(1, 6))
     ck.rule(R1, "propagation on every result path: each loop iteration of the local batch runner either propagates the "
                 "served memento into the calling frame or runs memento_run_local; memento_run_local pops and then "
